@@ -452,7 +452,10 @@ class C09:
         if canon(parse(lt.split(" "))) != spec:
             raise InternalError("case %s: Lean `live` and the check's Spec disagree" % name)
         if a is None:
-            diffs = [(("-", b"-"), "load-failed", None, None)]
+            diffs = [(("*", b"*"), "load-failed", None, None)]
+            rm = self.lean_dec((tl0 + tl1) // 2, f)
+            if rm[0] == "ok":
+                self.disagreements.append({"what": "real loader refuses its own file, the model accepts it", "case": name, "file": hx(f[:2000])})
         else:
             diffs = diff(a, spec, indet)
         new = []
@@ -494,7 +497,11 @@ class C09:
             if case.get("bytes", True):
                 r0 = self.lean_dec(0, f)
                 ct = ctime_of(f)
-                if r0[0] == "ok" and ct is not None:
+                lossless = r0[0] == "ok" and not diff(canon(r0[3]), {k: v for k, v in c0.items() if v[0] is None or v[0] >= ts1 + TOL},
+                                                      set(k for k, v in c0.items() if v[0] is not None and v[0] < ts1 + TOL))
+                if not lossless:
+                    rep.count("bytes-skipped(decode is lossy on this deviation case)")
+                if lossless and ct is not None:
                     enc = unhx(self.mask("encsnap %d %s" % (ct * 1000, tokens(r0[3]))))
                     rep.evaluations += 1
                     if enc != f:
@@ -524,10 +531,11 @@ class C09:
             _, b_ds = self.dump()
             rep.evaluations += 1
             indet2 = set(k for k, (dl, _, _) in c0.items() if dl is not None and (t20 - TOL <= dl <= t21 + TOL or ts0 - TOL <= dl <= ts1 + TOL))
+            r2 = self.lean_dec((t20 + t21) // 2, enc) if do_lean else None
             if w2[0] != "ok":
-                self.disagreements.append({"what": "(ii) real loader refuses the model's file", "case": name, "file": hx(enc[:2000])})
+                if a is not None or (r2 is not None and r2[0] == "ok"):
+                    self.disagreements.append({"what": "(ii) real loader refuses the model's file", "case": name, "file": hx(enc[:2000])})
             elif do_lean:
-                r2 = self.lean_dec((t20 + t21) // 2, enc)
                 dd = diff(canon(b_ds), canon(r2[3]) if r2[0] == "ok" else {}, indet2)
                 if dd:
                     self.disagreements.append({"what": "(ii) real load(model file) != model decSnapshot(model file)", "case": name, "diff": [self.show_diff(x) for x in dd[:4]], "file": hx(enc[:2000])})
@@ -545,6 +553,9 @@ class C09:
     def classify(self, d, c0, ts0, tl1):
         """shape of a known finding? (matched by shape, not by property id)"""
         (k, kind, got, want) = d
+        if kind == "load-failed":
+            # a marker-headed list whose tail is not an entry sequence leaves unread strings behind: the whole load fails
+            return "marker-list-as-stream" if any(t == "L" and v and v[0] == MARKER for (_, t, v) in c0.values()) else None
         orig = c0.get(k)
         if orig is None:
             return None
@@ -602,7 +613,9 @@ class C09:
             E(b"keep", "S", b"w", LONG), E(b"keepl", "L", [b"a"], LONG), E(b"keepz", "Z", [(b"m", FIN(2.0))], LONG), E(b"keepx", "X", [(5, 5, [(b"f", b"v")])], LONG),
             E(b"keeph", "H", [(b"f", b"v")], LONG), E(b"keept", "T", [b"a"], LONG), E(b"nottl", "S", b"x")])]})
         cases.append({"name": "marker-list", "kind": "marker", "ds": [(0, [E(b"k", "L", [MARKER, b"1-0", b"1", b"f", b"v"]), E(b"m", "L", [MARKER]),
-                                                                          E(b"n", "L", [MARKER, b"a"]), E(b"ok", "L", [b"a", MARKER]), E(b"s", "S", MARKER), E(MARKER, "T", [MARKER])])]})
+                                                                          E(b"ok", "L", [b"a", MARKER]), E(b"s", "S", MARKER), E(MARKER, "T", [MARKER])])]})
+        # the rest of the list is not an entry sequence: the loader leaves it unread and then parses it as opcodes -> the whole file is refused
+        cases.append({"name": "marker-list-unloadable", "kind": "marker", "ds": [(0, [E(b"n", "L", [MARKER, b"a"]), E(b"other", "S", b"v")])]})
         cases.append({"name": "empty-stream", "kind": "emptystream", "ds": [(3, [E(b"s", "X", []), E(b"t", "X", [(7, 7, [(b"f", b"v")])])])]})
         cases.append({"name": "expired-before-save", "kind": "ttl", "pre": 150, "bytes": False, "ds": [(2, [E(b"gone", "S", b"v", 40), E(b"gonel", "L", [b"a"], 40), E(b"stay", "S", b"w", LONG), E(b"plain", "H", [(b"f", b"v")])])]})
         cases.append({"name": "ttl-survives-downtime", "kind": "ttl", "down": 300, "ds": [(1, [E(b"a", "S", b"v", LONG), E(b"b", "Z", [(b"m", 0)], 2000), E(b"c", "X", [(1, 1, [(b"f", b"v")])], 5000), E(b"d", "L", [b""], 86400000)])]})
